@@ -9,6 +9,10 @@ open Adsb Adsb.Spec
 /-- the generated `CHAR_LOOKUP` is the Annex 10 character set, on all 64 codes -/
 theorem chars_spec : ∀ c, c < 64 → charOf c = Spec.ia5 c := by decide
 
+/-- the table of the source (regenerated) has an entry for every 6-bit code: `CHAR_LOOKUP[c]` is in bounds for everything the reader can
+produce, so the default of the model's `getD` is never used and hides no index panic -/
+theorem char_table_covers_six_bits : Gen.charLookup.length = 64 := by decide
+
 /-- the specification of the text: the eight codes in order, code 32 (space) removed, mapped by the alphabet -/
 def specText (codes : List Nat) : List Nat := (codes.filter (· != 32)).map Spec.ia5
 
